@@ -3089,13 +3089,13 @@ def dot(x,y):
         return blas.dot(x,y)
 
     elif _isdmatrix(x) and (type(y) is variable or 
-        (type(y) is _function and y._isaffine()) and  
-        x.size == (len(y),1)):
+        (type(y) is _function and y._isaffine())) and \
+        x.size == (len(y),1):
         return x.trans() * y
 
     elif _isdmatrix(y) and (type(x) is variable or 
-        (type(x) is _function and x._isaffine()) and 
-        y.size == (len(x),1)):
+        (type(x) is _function and x._isaffine())) and \
+        y.size == (len(x),1):
         return y.trans() * x
 
     else:
